@@ -168,8 +168,6 @@ fn ren_onst_nrb(balance_cr: &HashMap<Carrier, BalanceCarrier>, k_exp: f32) -> (f
             cr.we.del_onst.ren * (1.0 - (1.0 - k_exp) * exp_share)
         })
         .unwrap_or(0.0);
-    // 3. Renewable energy from cogeneration
-    let ren_el_cgn = el.map(|cr| cr.we.del_cgn.ren).unwrap_or(0.0);
     // 3. Renewable resources from nearby carriers used to cogenerate the exported electricity
     // These have to be substracted depending on k_exp value
     let ren_cgn_exp = el
@@ -189,7 +187,8 @@ fn ren_onst_nrb(balance_cr: &HashMap<Carrier, BalanceCarrier>, k_exp: f32) -> (f
         // Onsite
         ren_onst_cr + ren_el_onst,
         // Nearby
-        ren_nrb_cr + ren_el_onst + ren_el_cgn - (1.0 - k_exp) * ren_cgn_exp,
+        // (electricity delivered by the grid to feed a cogenerator is not a nearby resource)
+        ren_nrb_cr + ren_el_onst - (1.0 - k_exp) * ren_cgn_exp,
     )
 }
 
